@@ -10,9 +10,12 @@ CONSTANTS
   Modes = {"image", "sign", "auth"}
   Iters = {1, 2}
   OutPaths = {0, 1, 2}
-  MaxSteps = 3
+  MaxSteps = 2
+  SizeClasses <- AllSizes
+  UnitLens <- UnitLensFull
   Variant = "ok"
 INVARIANT HashInputOk
+INVARIANT HashedLength
 INVARIANT SinglePub
 INVARIANT SigVerifies
 INVARIANT PrivNotWritten
